@@ -126,6 +126,44 @@ class P(flow.Plan):
                    "a 20 ms window before each acknowledgement gives a too-eager write() the chance to return; waits are never verdicts",
                    "printrun_writer.POLLING_INTERVAL is shortened by the harness (timing only)"]
 
+    def extra(self, tier, sd):
+        """C16_Reading -- 'a reading requested by the previous statement is available when write() returns': statements answered
+        by one or more report lines (unsolicited status first, the requested reading last) before the ok; after write() returned,
+        get_parameter must show what the device said last for every letter.  Decided by ReportsTrace (the report grammar of C18)
+        on executions of the real writer (added after seed C16c)."""
+        import copy as _c
+        import random as _r
+        from . import check_c18
+        n = 40 if tier == "thorough" else 12
+        plans = []
+        for i in range(n):
+            rng = _r.Random(sd * 9173 + i)
+            plan = check_c18.make_plan(rng, rng.randint(2, 4), ok_rate=0.15)
+            for st in plan:                       # at least two reports before most acknowledgements
+                while len(st["status"]) < 2 and rng.random() < 0.8:
+                    line, rep = check_c18.make_report(rng, rng.choice(["grbl", "prb", "marlin_pos", "grbl_w"]))
+                    st["status"].append((list(line), rep))
+            plans.append({"plan": plan, "mode": "socket" if i % 2 else "serial"})
+        traces = flow.pool_map(check_c18._one, plans, par=8)
+        ctl = _c.deepcopy(traces[0])
+        chk = [k for k, e in enumerate(ctl["ev"]) if e["k"] == "check"][-1]
+        ctl["ev"][chk]["readings"]["Z"] = {"k": True, "v": 123456}
+        rp = check_c18.P()
+        failures, done, _ = flow.validate(rp, traces + [ctl])
+        if not [f for f in failures if f[0] == len(traces) and f[2] == "C18_Readings"]:
+            raise flow.MachineryError("C16_Reading: the planted wrong reading was not detected")
+        checks = sum((done[i][1] or {}).get("C18_Readings", 0) for i in range(len(traces)))
+        if checks == 0:
+            raise flow.MachineryError("C16_Reading never exercised")
+        out, seen = [], set()
+        for f in failures:
+            if f[0] < len(traces) and f[2] == "C18_Readings" and f[0] not in seen:
+                seen.add(f[0])
+                out.append({"clause": "C16_Reading", "step": f[1], "meta": traces[f[0]]["meta"], "input": plans[f[0]],
+                            "failing_event": rp.brief(traces[f[0]], f[1])})
+        return out, {"C16_Reading": {"executions": len(traces), "returns_checked": checks, "violations": len(out),
+                                     "negative_control_detected": True}}
+
     def model_runs(self, tier):
         runs = []
         for err, status in ([[2], [1, 3]], [[], []], [[1, 3], [2]]):
@@ -233,4 +271,22 @@ class P(flow.Plan):
 
 
 def run(pid, tier, replay=None):
+    if replay:
+        import json
+        with open(replay) as fh:
+            payload = json.load(fh)
+        if payload.get("clause") == "C16_Reading":          # decided by ReportsTrace: re-execute that plan on the real writer
+            from . import check_c18
+            from .common import EXIT_OK, EXIT_VIOLATION, say
+            inp = payload["input"]
+            inp["plan"] = [{"status": [(x[0], x[1]) for x in st["status"]], "ack": tuple(st["ack"]) if st["ack"] else None} for st in inp["plan"]]
+            traces = flow.pool_map(check_c18._one, [inp], par=1)
+            failures, _, _ = flow.validate(check_c18.P(), traces)
+            bad = [f for f in failures if f[2] == "C18_Readings"]
+            if bad:
+                say("VIOLATION property=C16 replay=%s" % replay)
+                say("  clause C16_Reading false at step %d" % bad[0][1])
+                return EXIT_VIOLATION
+            say("C16 replay: C16_Reading held on this plan")
+            return EXIT_OK
     return flow.run(P(), tier, replay)
